@@ -66,6 +66,11 @@ theorem un_agree_aux (cB cG : Cfg) (hws : w.SupU false)
         simp only [normSeq]
         rw [normKV_unFields w cB cG _ fs hwt
           (fun f hf => ⟨(hEm c f hf).1, (hEm c f hf).2 (by simpa using ht)⟩) (hField c fs hfs hsk)]
+    -- instances of NamedTuple classes (fields of primitive types): the tuple of the items, for both engines
+    have hNT : ∀ (c : Nat) (fs : List (String × Obj)), w.isNT c = true → wellTypedT w (w.ntTys c) (vals fs) = true →
+        Obj.coll .tuple (if cG.gen then unT w cG (w.ntTys c) (vals fs) else vals fs) = Obj.coll .tuple (vals fs) := by
+      intro c fs hnt hwt
+      rw [if_pos hG, unT_leaves w cG _ _ (ntTys_primU w hws rfl hnt) hwt]
     have hAny : ∀ (x : Obj), sizeOf x ≤ n + 1 → wellTypedAny w x = true → (scalarKeys x) = true →
         normSeq (unAny w cB x) = normSeq (unAny w cG x) := by
       intro x hx hwt hsk
@@ -109,7 +114,13 @@ theorem un_agree_aux (cB cG : Cfg) (hws : w.SupU false)
         rw [scalarKeys] at hsk
         simp at hx
         rw [unAny, unAny]
-        exact hInst c fs (by omega) hwt hsk
+        by_cases hnt : w.isNT c = true
+        · rw [if_pos hnt] at hwt
+          rw [if_pos hnt, if_pos hnt, hNT c fs hnt hwt]
+          simp [hB]
+        · rw [if_neg hnt] at hwt
+          rw [if_neg hnt, if_neg hnt]
+          exact hInst c fs (by omega) hwt hsk
       | none => simp [unAny]
       | bool b => simp [unAny]
       | int i => simp [unAny]
@@ -237,11 +248,12 @@ theorem un_agree_aux (cB cG : Cfg) (hws : w.SupU false)
         cases x with
         | inst c' fs =>
           simp only [wellTyped, Bool.and_eq_true, beq_iff_eq] at hwt
-          obtain ⟨hc, hwf⟩ := hwt
+          obtain ⟨⟨hc, hnt⟩, hwf⟩ := hwt
           subst hc
+          have hnt' : ¬ (w.isNT c = true) := by simpa using hnt
           rw [scalarKeys] at hsk
           simp at hx
-          rw [unAny, un, un]
+          rw [unAny, un, un, if_neg hnt']
           have := hInst c fs (by omega) hwf hsk
           exact ⟨this, this⟩
         | _ => simp [wellTyped] at hwt
@@ -254,9 +266,18 @@ theorem un_agree_aux (cB cG : Cfg) (hws : w.SupU false)
           cases x with
           | none => simp [wellTypedAny]
           | inst c fs =>
-            simp only [wellTyped, Bool.and_eq_true] at hwt
-            rw [wellTypedAny]; exact hwt.2
+            simp only [wellTyped, Bool.and_eq_true, Bool.not_eq_true'] at hwt
+            rw [wellTypedAny, if_neg (by simp [hwt.1.2])]; exact hwt.2
           | _ => simp [wellTyped] at hwt
         exact ⟨hAny x hx hwa hsk, hAny x hx hwa hsk⟩
+      | nt c =>
+        cases x with
+        | inst c' fs =>
+          simp only [wellTyped, Bool.and_eq_true, beq_iff_eq] at hwt
+          obtain ⟨⟨hc, hnt⟩, hwf⟩ := hwt
+          subst hc
+          rw [unAny, un, un, if_pos hnt, hNT c fs hnt hwf]
+          simp [hB]
+        | _ => simp [wellTyped] at hwt
 
 end CattrsModel.GenInterp
